@@ -41,7 +41,7 @@ fn run_once(id: usize, sc: &Scn, prefix: &[usize]) -> Result<Exec, String> {
     let sched: String = prefix.iter().map(|c| c.to_string()).collect::<Vec<_>>().join(",");
     let run = Run {
         argv: sc.argv.clone(),
-        env: vec![("STYLUA_VERIF_SCHED".into(), sched), ("STYLUA_VERIF_TRACE".into(), "$ROOT/_trace.jsonl".into())],
+        env: vec![("STYLUA_VERIF_SCHED".into(), sched), ("STYLUA_VERIF_TRACE".into(), "$ROOT/_trace.jsonl".into()), ("STYLUA_VERIF_FAULTS".into(), "1".into())],
         ..Run::default()
     };
     let o = cli::execute(id, &sc.tree, &run);
@@ -73,7 +73,7 @@ fn run_once(id: usize, sc: &Scn, prefix: &[usize]) -> Result<Exec, String> {
 }
 
 fn scenarios(thorough: bool) -> Vec<Scn> {
-    let alpha = [Kind::Missing, Kind::Unparseable, Kind::Unformatted, Kind::Formatted, Kind::NotDir];
+    let alpha = [Kind::Missing, Kind::Unparseable, Kind::Unformatted, Kind::Formatted, Kind::NotDir, Kind::Crash];
     let mut v = vec![];
     let max = if thorough { 3 } else { 3 };
     // every ORDERED list (argument order matters for the main thread's events) of up to `max` entries
@@ -101,6 +101,10 @@ fn scenarios(thorough: bool) -> Vec<Scn> {
         // the not-a-directory kind (a walker error other than "not found") takes the place of the missing path: lists with both
         // only in the thorough tier
         if !thorough && ks.contains(&Kind::NotDir) && (ks.contains(&Kind::Missing) || ks.len() > 2) {
+            continue;
+        }
+        // a file whose formatting crashes (fault hook): its worker dies; lists of two in the quick tier
+        if !thorough && ks.contains(&Kind::Crash) && (ks.len() > 2 || ks.contains(&Kind::NotDir)) {
             continue;
         }
         for (check, fmt) in [(true, "Summary"), (false, "Standard"), (true, "Json"), (false, "Json")] {
@@ -144,7 +148,7 @@ fn scenarios(thorough: bool) -> Vec<Scn> {
                     }
                     argv.push(p);
                 }
-                let any_fail = ks.iter().any(|k| matches!(k, Kind::Missing | Kind::Unparseable | Kind::NotDir));
+                let any_fail = ks.iter().any(|k| matches!(k, Kind::Missing | Kind::Unparseable | Kind::NotDir | Kind::Crash));
                 let any_diff = ks.iter().any(|k| *k == Kind::Unformatted);
                 let want_code = if any_fail { 2 } else if check && any_diff { 1 } else { 0 };
                 v.push(Scn {
@@ -410,7 +414,7 @@ pub fn c19(thorough: bool, stats: &mut Stats) -> Vec<Failure> {
                 if let Some(p) = argv.iter().position(|a| a == "--num-threads") {
                     argv[p + 1] = nt.to_string();
                 }
-                let o = cli::execute(500000 + k, &sc.tree, &Run { argv, ..Run::default() });
+                let o = cli::execute(500000 + k, &sc.tree, &Run { argv, env: vec![("STYLUA_VERIF_FAULTS".into(), "1".into())], ..Run::default() });
                 let mut files = BTreeMap::new();
                 for (p, v) in &o.after {
                     if p.ends_with(".lua") || p.ends_with(".luau") {
